@@ -152,7 +152,7 @@ def run(ctx):
     for (variant, en), hs in sorted(groups.items()):
         traces = []
         for h in hs:
-            tr = lc.run_history(rng, variant, en, h, via=rng.choice(['enforce', 'enforce', 'rules']), late=any(op[0] == 'register' for op in h))
+            tr = lc.run_history(rng, variant, en, h, via=rng.choice(['enforce', 'enforce', 'rules', 'check']), late=any(op[0] == 'register' for op in h))
             traces.append(tr)
             longest = max(longest, len(tr))
         n_hist += len(traces)
